@@ -30,16 +30,39 @@ fn main() {
             std::process::exit(2);
         }
     };
+    // A case that never returns (a busy loop in the implementation cannot be interrupted from inside the process) must not
+    // take its whole shard with it: a watchdog answers `HANG` for that case after VH_CASE_TIMEOUT seconds (default 90) and ends
+    // the process; the driver (lib/vcommon.py _run_one) starts a new one for the cases behind it.
+    let limit = std::env::var("VH_CASE_TIMEOUT").ok().and_then(|v| v.parse::<u64>().ok()).unwrap_or(90);
+    let current: std::sync::Arc<std::sync::Mutex<Option<std::time::Instant>>> = Default::default();
+    {
+        let current = current.clone();
+        std::thread::spawn(move || loop {
+            std::thread::sleep(std::time::Duration::from_millis(500));
+            let g = current.lock().unwrap();
+            if let Some(t0) = *g {
+                if t0.elapsed().as_secs() >= limit {
+                    // the answer of the running case; the lock is held, so the main thread cannot print a second one
+                    println!("HANG no answer within {limit} s");
+                    let _ = std::io::stdout().flush();
+                    std::process::exit(3);
+                }
+            }
+        });
+    }
     let stdin = std::io::stdin();
-    let stdout = std::io::stdout();
-    let mut out = stdout.lock();
     for line in stdin.lock().lines() {
         let line = line.unwrap();
+        *current.lock().unwrap() = Some(std::time::Instant::now());
         let res = std::panic::catch_unwind(|| f(&line));
         let s = match res {
             Ok(s) => s,
             Err(e) => format!("PANIC {}", util::panic_msg(&e)),
         };
-        writeln!(out, "{s}").unwrap();
+        let mut g = current.lock().unwrap();
+        *g = None;
+        println!("{s}");
+        let _ = std::io::stdout().flush();
+        drop(g);
     }
 }
